@@ -34,10 +34,11 @@ ASSUMPTIONS = ['"different network" = the address version byte / HRP is not one 
                'for BIP350-valid future witness destinations (version >= 1 other than v1/32 bytes) a refusal is acceptable, a wrong script is not',
                'object sources (Address, HDKey): a refusal is tolerated and counted; an accepted object must yield exactly the script of the address string it shows',
                'the foreign-network clause for OBJECT sources is judged only through Transaction.add_output (Output() documents that it adopts the object\'s own network)',
-               'script -> address for non-standard witness programs: reporting no address (or raising on .address) is acceptable, a different address is not; '
+               'script -> address for non-standard witness programs: reporting no address (or raising on .address) is acceptable, a different address is not - except for versions 1..16 with 20/32-byte programs: when address -> script yields the script, the script must report that address (inverse clause); '
                'the type label is judged only for the five standard types',
                'P2PK / bare multisig / nulldata outputs are not standard destinations of the statement: only their script bytes are checked when built from a public key']
-EXHAUSTIVE = ['header-like payloads: first byte in {00, 51..60, 76, a9, 6a, 4c} x second byte in {len-2, 14, 20} x 5 standard types, both directions + hash / Address(hashed_data) sources, in every quick run',
+EXHAUSTIVE = ['prior calls on the same HDKey object (address() with every script_type x encoding, address_obj, hash160, wif, public, as_dict) x 3 witness types before it is used as output source, in every quick run',
+              'header-like payloads: first byte in {00, 51..60, 76, a9, 6a, 4c} x second byte in {len-2, 14, 20} x 5 standard types, both directions + hash / Address(hashed_data) sources, in every quick run',
               'networks x 5 standard types (string source, both entry points) in every quick run',
               'witness versions 0..16 x program lengths {20, 32} on every network in every quick run',
               'ordered network pairs x 5 standard types for the foreign-network clause (string source) in every quick run']
@@ -220,7 +221,8 @@ def eval_dest(case):
     except Exception as e:
         back = 'EXC %s' % type(e).__name__
     if dt == 'future':
-        if not (back in (addr, '') or back.startswith('EXC')) and spk == want:
+        lenient = len(prog) not in (20, 32)      # 20/32-byte programs of versions 1..16: the accepted address must come back exactly
+        if spk == want and back != addr and not (lenient and (back == '' or back.startswith('EXC'))):
             fails.append(Fail('inverse', 'wrong-inverse', back, addr))
     elif back != addr and spk == want:
         fails.append(Fail('inverse', 'wrong-inverse', back, addr))
@@ -380,6 +382,15 @@ def eval_script(case):
     elif rt == 'witness_unknown':
         if not (rep in (want, '') or rep.startswith('EXC')):
             fails.append(Fail('address', 'wrong-address', rep, want))
+        elif rep != want and len(payload) in (20, 32):
+            # witness versions 1..16 with a 20/32-byte program are inside the statement's quantifier: when the library itself turns the
+            # address into exactly this script, "no address" for the script means the two directions are not inverse
+            try:
+                forward = bytes(_make('output', N, address=want).lock_script) == spk
+            except Exception:
+                forward = False
+            if forward:
+                fails.append(Fail('address', 'no-address-although-address-to-script-works', {'address': rep, 'type': typ}, want))
     return 'accepted', fails
 
 
@@ -424,6 +435,23 @@ def judge_script(case, col):
 def _secret_pub(case):
     d = int(case['secret'], 16)
     return d, ec.pub_from_secret(d, case.get('compressed', True))
+
+
+# calls a program may have made on a key object before handing it to Output()/add_output(); none of them is documented to change the
+# key's own address (address_uncompressed() is left out: it switches the object to its uncompressed form by design)
+PRIOR_CALLS = {
+    'address()': lambda k: k.address(),
+    'address_obj': lambda k: k.address_obj,
+    'hash160': lambda k: k.hash160,
+    'wif': lambda k: k.wif(),
+    'public': lambda k: k.public(),
+    'as_dict': lambda k: k.as_dict(),
+}
+for _st in (None, 'p2pkh', 'p2sh', 'p2wpkh', 'p2wsh', 'p2sh_p2wpkh', 'p2sh_p2wsh', 'p2tr'):
+    for _enc in (None, 'base58', 'bech32'):
+        if _st is None and _enc is None:
+            continue
+        PRIOR_CALLS['address(%s,%s)' % (_st, _enc)] = (lambda st, enc: (lambda k: k.address(script_type=st, encoding=enc)))(_st, _enc)
 
 
 def eval_other(case):
@@ -471,6 +499,11 @@ def eval_other(case):
         key_addr = chain.address_for_script(M, want)
         foreign = not chain.address_network_ok(key_addr, N)
         k = HDKey(d.to_bytes(32, 'big'), network=M, witness_type=wt, compressed=case.get('compressed', True))
+        for call in case.get('prior', []):          # earlier, unrelated uses of the SAME key object must not change what it pays to
+            try:
+                PRIOR_CALLS[call](k)
+            except Exception:
+                pass
         kw = {'address': k if case.get('as', 'hdkey') == 'hdkey' else k.address_obj}
         obj_addr = key_addr
     elif kind == 'addrobj':
@@ -586,7 +619,7 @@ def judge_other(case, col):
     if kind == 'addrobj':
         sub = case.get('variant') or ('hashed-' + case['type'])
     col.case('%s/%s' % (kind, sub), nontrivial=(kind, case['network'], case.get('key_net') or case.get('obj_net') or '', sub, case.get('via', 'output'),
-                                                 case.get('encoding'), case.get('compressed', True), case.get('as')), sample=case)
+                                                 case.get('encoding'), case.get('compressed', True), case.get('as'), tuple(case.get('prior', []))), sample=case)
     col.probe('source_' + kind)
     try:
         st, fails, meta = eval_other(case)
@@ -731,6 +764,12 @@ def run_shard(spec, col):
                 p = _headerlike(rnd, n, rnd.choice(HEADER_FIRST[:17]), n - 2)
                 judge_dest({'kind': 'dest', 'network': net, 'enc': 'segwit', 'witver': v, 'payload': p.hex(), 'via': 'output', 'src': rnd.choice(['string', 'addr_parse'])}, col)
                 judge_script({'kind': 'script', 'network': net, 'spk': chain.script_witness(v, p).hex(), 'strict': False}, col)
+    # ---- (2c) call sequences on ONE key object: every prior call x witness type, then the key is used as output source
+    for call in sorted(PRIOR_CALLS):
+        for wt in ('legacy', 'segwit', 'p2sh-segwit'):
+            if mine():
+                judge_other({'kind': 'hdkey', 'network': rnd.choice(NETS), 'secret': '%x' % rnd.randrange(1, ec.N), 'witness_type': wt,
+                             'via': rnd.choice(['output', 'add_output']), 'compressed': True, 'as': 'hdkey', 'prior': [call]}, col)
     # ---- (3) every ordered network pair x standard type: address of M used on N (string source; foreign or shared prefix)
     for N in NETS:
         for M in NETS:
@@ -801,6 +840,8 @@ def run_shard(spec, col):
                  'compressed': True if wt != 'legacy' else rnd.random() < 0.7, 'as': rnd.choice(['hdkey', 'hdkey', 'address_obj'])}
             if rnd.random() < 0.4:
                 c['key_net'] = rnd.choice(NETS)
+            if c['as'] == 'hdkey' and rnd.random() < 0.5:
+                c['prior'] = rnd.sample(sorted(PRIOR_CALLS), rnd.randint(1, 3))
             judge_other(c, col)
         else:                                                # Address(...) objects
             if rnd.random() < 0.45:
